@@ -82,13 +82,20 @@ Theorem C12_csr_rows : forall (A : Type) (rowf : A -> list (Z * Z)) (advance : A
 Proof. exact csr_loop_rows. Qed.
 Print Assumptions C12_csr_rows.
 
-(* LZ: the dictionary is rebuilt for every string, so the row is a function of the string (guard: every parsed
-   phrase has a column — otherwise the current code advances indptr too far, D4) *)
+(* LZ: the dictionary is rebuilt from base_dictionary for every string, so the row is a function of the string and
+   the fitted columns — for EVERY input, including strings whose parse contains phrases without a column (they are
+   dropped and indptr advances by the phrases kept) and for every base dictionary / key space (K = phrases or hashes) *)
 Theorem C12_lz_reset : forall (K : Type) keqb h (coldict base : dict K) max_size X,
-  (forall s, In s X -> forall kv, In kv (lz_encode K keqb h max_size s base) -> dfind K keqb (fst kv) coldict <> None) ->
   csr_rows (lz_transform K keqb h coldict base max_size X) = map (lz_row K keqb h coldict base max_size) X.
 Proof. exact lz_transform_rows. Qed.
 Print Assumptions C12_lz_reset.
+
+(* pointwise content of a row: the (column, count) pairs of the phrases of the string's OWN parse that have a column *)
+Theorem C12_lz_row_spec : forall (K : Type) keqb h (coldict base : dict K) max_size s c v,
+  In (c, v) (lz_row K keqb h coldict base max_size s) <->
+  exists k, In (k, v) (lz_encode K keqb h max_size s base) /\ dfind K keqb k coldict = Some c.
+Proof. exact lz_row_spec. Qed.
+Print Assumptions C12_lz_row_spec.
 
 (* ... and the reset is what makes it so: the same loop without it is not a map *)
 Theorem C12_lz_noreset_refuted :
@@ -122,6 +129,43 @@ Theorem C12_blocks_rows : forall (C : Type) (X : list C) b,
   (0 < b)%nat -> concat (map (rows_of X) (blocks b (length X))) = X.
 Proof. exact blocks_rows. Qed.
 Print Assumptions C12_blocks_rows.
+
+Theorem C12_blocks_larger : forall b n, (n < b)%nat -> blocks b n = [(0, n)]%nat.
+Proof. exact blocks_larger. Qed.
+Print Assumptions C12_blocks_larger.
+
+(* ---- the chunk loop INSIDE lot_vectors_sparse_internal / lot_vectors_dense_internal (chunk_size = max(256,
+   block_size // 64)): for every number of rows and every chunk size >= 1 the chunks [k*c, min(k*c + c, n)),
+   k < n // c + 1, visit each row exactly once, so the zero-initialised result ends up as the per-row map ---- *)
+Theorem C12_kernel_chunks_partition : forall c n, (0 < c)%nat -> concat (map range (kernel_chunks c n)) = seq 0 n.
+Proof. exact kernel_chunks_cover. Qed.
+Print Assumptions C12_kernel_chunks_partition.
+
+Theorem C12_kernel_chunks_once : forall c n r, (0 < c)%nat -> (r < n)%nat ->
+  (r / c < n / c + 1)%nat /\
+  forall k, (k < n / c + 1)%nat -> ((k * c <= r < Nat.min (k * c + c) n)%nat <-> k = (r / c)%nat).
+Proof. exact kernel_chunks_once. Qed.
+Print Assumptions C12_kernel_chunks_once.
+
+Theorem C12_kernel_chunk_loop : forall (A B : Type) (row : A -> B) d zero c X,
+  (0 < c)%nat -> kernel_chunk_fill row d zero (kernel_chunks c (length X)) X = map row X.
+Proof. exact kernel_chunk_fill_map. Qed.
+Print Assumptions C12_kernel_chunk_loop.
+
+(* a row that no chunk covers keeps its initial zero: the bound of the chunk loop is what the property rests on ... *)
+Theorem C12_kernel_unwritten_row_is_zero : forall (A B : Type) (row : A -> B) d zero chunk_list X r,
+  (forall i, In i (concat (map range chunk_list)) -> (i < length X)%nat) ->
+  ~ In r (concat (map range chunk_list)) ->
+  nth r (kernel_chunk_fill row d zero chunk_list X) zero = zero.
+Proof. exact kernel_chunk_fill_unwritten. Qed.
+Print Assumptions C12_kernel_unwritten_row_is_zero.
+
+(* ... and with the count max(1, n // c) (no trailing chunk) the loop is not the per-row map *)
+Theorem C12_kernel_chunks_short_refuted :
+  kernel_chunk_fill (fun x : Z => (x + 1)%Z) 0%Z 0%Z (kernel_chunks_short 2 3) [5; 6; 7]%Z
+  <> map (fun x : Z => (x + 1)%Z) [5; 6; 7]%Z.
+Proof. exact kernel_chunks_short_differs. Qed.
+Print Assumptions C12_kernel_chunks_short_refuted.
 
 (* a per-row kernel applied block by block (and chunk by chunk) gives the same matrix for every block/chunk size *)
 Theorem C12_blockwise : forall (A B : Type) (f : list A -> list B) (row : A -> B) b X,
@@ -176,6 +220,16 @@ Example C12_ex_blocks_one : blocks 1 3 = [(0, 1); (1, 2); (2, 3); (3, 3)]%nat.
 Proof. reflexivity. Qed.
 Example C12_ex_chunks : chunks 2 3 8 = [(3, 5); (5, 7); (7, 8)]%nat.
 Proof. reflexivity. Qed.
+Example C12_ex_kernel_chunks : kernel_chunks 256 300 = [(0, 256); (256, 300)]%nat /\ kernel_chunks 2 4 = [(0, 2); (2, 4); (4, 4)]%nat.
+Proof. split; reflexivity. Qed.
+Example C12_ex_kernel_fill : kernel_chunk_fill (fun x : Z => (x + 1)%Z) 0%Z 0%Z (kernel_chunks 2 3) [5; 6; 7]%Z = [6; 7; 8]%Z
+  /\ kernel_chunk_fill (fun x : Z => (x + 1)%Z) 0%Z 0%Z (kernel_chunks_short 2 3) [5; 6; 7]%Z = [6; 7; 0]%Z.
+Proof. vm_compute. split; reflexivity. Qed.
+(* base dictionary {a: 5}, columns for "" and "a" only: the phrase "b" of the second string has no column and is dropped *)
+Example C12_ex_lz_base_unseen :
+  csr_rows (lz_transform (list Z) list_eqb (fun p => p) [([], 0%Z); ([97%Z], 1%Z)] [([97%Z], 5%Z)] 10 [[97; 97]; [98; 98]; [97; 97]]%Z)
+  = [[(1, 6); (0, 1)]; [(1, 5); (0, 1)]; [(1, 6); (0, 1)]]%Z.
+Proof. vm_compute. reflexivity. Qed.
 Example C12_ex_lz : csr_rows (lz_transform (list Z) list_eqb (fun p => p) [([], 0%Z); ([97%Z], 1%Z)] [] 10 [[97; 97; 97]; [97]]%Z)
   = [[(0, 1); (1, 2)]; [(0, 1)]]%Z.
 Proof. vm_compute. reflexivity. Qed.
